@@ -795,29 +795,61 @@ def unit_effects(prog, unit):
     return mut, pure
 
 
-def _norm_rule(chk, f, idxd):
-    """N: negative positions count from the end: `if (idx < 0) idx += self->len` before idx is used"""
-    found = None
-    for x in f.body.get("ch", []):
-        if x.get("k") != "if" or x.get("else") is not None:
-            continue
-        c = X.strip(x["cond"])
-        if not (c.get("k") == "bin" and c.get("op") == "<" and X.strip(c["ch"][0]).get("d") == idxd and X.const_val(c["ch"][1]) == 0):
-            continue
-        for y in walk(x["then"]):
-            if y.get("k") == "assign" and X.strip(y["ch"][0]).get("d") == idxd:
-                r = X.strip(y["ch"][1])
-                txt = X.render(y)
-                if y.get("op") == "+=" and r.get("k") == "member" and r.get("n") == "len":
-                    found = x
-                elif y.get("op") == "=" and r.get("k") == "bin" and r.get("op") == "+":
-                    a, b = X.strip(r["ch"][0]), X.strip(r["ch"][1])
-                    if {a.get("d"), b.get("n")} == {idxd, "len"} or {b.get("d"), a.get("n")} == {idxd, "len"}:
-                        found = x
-    chk.ob("N1", f.name, "negative-index-normalised", found is not None, loc=f.loc(f.body),
-           detail="%s does not add self->len to a negative position before using it: positions counted from the end are misplaced "
-                  "or refused" % f.name, proof="`if (idx < 0) idx += self->len` at the top of the function")
-    return found
+def _norm_rule(chk, f, idxd, prog=None, unit=None):
+    """N1: negative positions count from the end.  Decided with GHOSTPOS in the scenario `the position argument is negative`
+    (a ghost symbol g0 holds the argument's value on entry): wherever the function reads the position variable other than to
+    test its sign or to compute its own new value, the variable provably holds g0 + len.  However the normalisation is written
+    (`if (idx < 0) idx += len`, a conditional expression, a value-returning helper inlined by the front end) it is recognised by
+    what it establishes."""
+    from .ghostpos import GhostPos, show
+    from .lin import Lin, entails, feasible
+    mut, pure = unit_effects(prog, unit) if prog is not None else ({}, set())
+    g = GhostPos(f, prog, mutators=mut, pure=pure)
+    v, g0, L, L0 = Lin.sym("v%d" % idxd), Lin.sym("g0"), Lin.sym("len"), Lin.sym("l0")
+    nassign = sum(1 for x in walk(f.body) if (x.get("k") == "assign" and (X.strip(x["ch"][0]) or {}).get("d") == idxd) or
+                  (x.get("k") == "un" and x.get("op") in ("++", "--") and (X.strip(x["ch"][0]) or {}).get("d") == idxd))
+    if g.cfg is None or idxd not in g.intvars:
+        chk.ob("N1", f.name, "negative-index-normalised", False, loc=f.loc(f.body), detail="%s: position parameter not found" % f.name)
+        return None
+    g.run(init=[L, v - g0, g0 - v, -g0 - 1, L - L0, L0 - L])     # l0: the length on entry (len itself changes in insert_at)
+    bad = []
+    nuse = [0]
+
+    def vis(st, n, blk):
+        if n.get("k") != "ref" or n.get("d") != idxd:
+            return
+        # context of this read
+        cur, par = n, f.parent.get(n["i"])
+        while par is not None:
+            k = par.get("k")
+            if k == "assign":
+                l = X.strip(par["ch"][0])
+                if l is not None and l.get("k") == "ref" and l.get("d") == idxd:
+                    return                      # computing the variable's own new value (or the target itself)
+                break
+            if k == "bin" and par.get("op") in ("<", ">", "<=", ">=", "==", "!=") and (X.const_val(par["ch"][0]) in (0, -1) or X.const_val(par["ch"][1]) in (0, -1)) \
+                    and X.strip(par["ch"][0] if X.const_val(par["ch"][1]) in (0, -1) else par["ch"][1]) is X.strip(cur):
+                if entails(list(st), v - g0) and entails(list(st), g0 - v):
+                    return                      # a test of the raw argument's sign
+                break
+            if k in ("if", "while", "for", "do", "return", "block", "exprstmt", "call", "decl"):
+                break
+            cur, par = par, f.parent.get(par["i"])
+        if not feasible(list(st)):
+            return
+        nuse[0] += 1
+        right = entails(list(st), v - g0 - L0) and entails(list(st), g0 + L0 - v)
+        raw = entails(list(st), v - g0) and entails(list(st), g0 - v)
+        # the raw negative argument is used; or the only assignment the variable ever gets did not make it argument + len
+        if raw or (not right and nassign <= 1):
+            bad.append((n, st))
+    g.visit(vis)
+    ok = not bad and nuse[0] > 0
+    chk.ob("N1", f.name, "negative-index-normalised", ok, loc=f.loc(bad[0][0]) if bad else f.loc(f.body),
+           detail="%s uses its position argument without having added self->len to a negative value (state with a negative argument g0: "
+                  "%s): positions counted from the end are misplaced or refused" % (f.name, show(bad[0][1])[:160] if bad else "no use found"),
+           proof="in the scenario idx < 0, every use of the position sees idx == argument + len (%d uses)" % nuse[0])
+    return ok
 
 
 def check_positions(chk, prog, unit):
@@ -888,7 +920,7 @@ def check_positions(chk, prog, unit):
     f = slotfn(prog, unit, "list", "insert_at")
     if f is not None:
         idx = idx_sym(f, 2)
-        _norm_rule(chk, f, f.params[2]["d"])
+        _norm_rule(chk, f, f.params[2]["d"], prog, unit)
         objd = f.params[1]["d"]
         g = engine(f)
         payload = set()
@@ -967,7 +999,7 @@ def check_positions(chk, prog, unit):
         if f is None:
             continue
         idx = idx_sym(f, 1)
-        _norm_rule(chk, f, f.params[1]["d"])
+        _norm_rule(chk, f, f.params[1]["d"], prog, unit)
         g = engine(f, no_havoc=(slot == "remove_at"))
         refusals = null_arm_sites(f)
         done = set()
